@@ -61,38 +61,6 @@ func dischargeAll(ctx *Ctx, obls []*Obligation, timeoutS, par int, dump string) 
 		}(i, o)
 	}
 	wg.Wait()
-	// Second chance, with little CPU contention and other random seeds, for
-	// obligations the parallel pass did not decide: a solver time-out under load
-	// is not evidence. Bounded: at most 8 obligations are retried.
-	var retry []int
-	for i, d := range out {
-		if noRetry || d.OK() || d.O.Kind == "assigns" || d.O.Expect == "sat" || d.R.Status == "sat" {
-			continue
-		}
-		if len(retry) < 8 {
-			retry = append(retry, i)
-		}
-	}
-	sem2 := make(chan struct{}, 3)
-	for _, i := range retry {
-		wg.Add(1)
-		sem2 <- struct{}{}
-		go func(i int) {
-			defer wg.Done()
-			defer func() { <-sem2 }()
-			o := out[i].O
-			script := o.Render(pre)
-			r := Solve("(set-option :smt.random_seed 7)\n"+script, timeoutS, []string{"z3-new", "z3"})
-			if r.Status != "unsat" {
-				r = Solve(script, timeoutS*2, nil)
-			}
-			if r.Status == "unsat" || r.Status == "sat" {
-				r.Solver += "(retry)"
-				out[i] = Discharged{o, r}
-			}
-		}(i)
-	}
-	wg.Wait()
 	return out
 }
 
@@ -191,4 +159,39 @@ func main() {
 	}
 	cleanupScratch()
 	os.Exit(code)
+}
+
+// retryUndecided gives obligations the parallel pass did not decide a second
+// chance with little CPU contention and another random seed: a solver
+// time-out under load is not evidence. Bounded: at most max obligations.
+func retryUndecided(out []Discharged, timeoutS, max int) {
+	var wg sync.WaitGroup
+	sem := make(chan struct{}, 4)
+	n := 0
+	for i, d := range out {
+		if d.OK() || d.O.Kind == "assigns" || d.O.Expect == "sat" || d.R.Status == "sat" {
+			continue
+		}
+		if n >= max {
+			break
+		}
+		n++
+		wg.Add(1)
+		sem <- struct{}{}
+		go func(i int) {
+			defer wg.Done()
+			defer func() { <-sem }()
+			o := out[i].O
+			script := o.Render("")
+			r := Solve("(set-option :smt.random_seed 7)\n"+script, timeoutS, []string{"z3-new", "z3"})
+			if r.Status != "unsat" {
+				r = Solve(script, timeoutS*2, nil)
+			}
+			if r.Status == "unsat" || r.Status == "sat" {
+				r.Solver += "(retry)"
+				out[i] = Discharged{o, r}
+			}
+		}(i)
+	}
+	wg.Wait()
 }
